@@ -1,4 +1,4 @@
-import VyxalModel.Lemmas.Compile2
+import VyxalModel.Lemmas.Compile3
 import VyxalModel.Gen.Elements
 import VyxalModel.Gen.Modifiers
 /-!
@@ -16,29 +16,41 @@ every nesting depth, every input list, every flag set of the property, every fue
 element library: nothing in the proofs looks inside `CoreLib.elemFn`, so they cover every element whose table
 entry is the `process_element` boilerplate of a first-order function (237 entries of the current table).
 
-Stage reached: the closure-free fragment (literals, first-order elements, the 21 hand-written stack / context /
+Stage reached: closures — lambdas (plain, map, filter, sort) with the call protocol — on top of the closure-free fragment (literals, first-order elements, the 21 hand-written stack / context /
 input / register / printing templates of the closed core, variables, `if` chains, `for`, `while`, break / continue,
-the implicit output).  The full statement — the same for lambdas, named functions, list
-literals and modifiers — is `compile_correct` below as a comment; what is proved is named `…_partial_no_closures`.
+the implicit output).  The full statement — the same for named functions, list
+literals and modifiers too — is `compile_correct` below as a comment; what is proved is named `…_partial_no_functions`.
 The remaining constructs are executable in both interpreters and compared on every generated program by the
 `py-vs-ref`, `py` and `ref` streams of the check.
 -/
 namespace Vy.Sem
 open Vy PyAst
 
-/-- the fragment of stage 2 -/
-def Frag2 (tbl : List Gen.Entry) (prog : List Structure) : Prop := fragL tbl prog = true
+/-- the fragment reached so far (decidable): see `Lemmas/Frag.lean` -/
+def Frag (tbl : List Gen.Entry) (prog : List Structure) : Prop := fragL tbl prog = true
 
-instance (tbl : List Gen.Entry) (prog : List Structure) : Decidable (Frag2 tbl prog) := by unfold Frag2; infer_instance
+instance (tbl : List Gen.Entry) (prog : List Structure) : Decidable (Frag tbl prog) := by unfold Frag; infer_instance
 
-/-- **Simulation, closure-free fragment**: from related states, whenever the reference semantics of `prog` is defined,
-    the Python semantics of the transpiled code yields the corresponding signal and a related state. -/
-theorem simulation_no_closures (cfg : Cfg) (env : TEnv) (hE : cfg.elements = env.elements)
-    (prog : List Structure) (hf : Frag2 env.elements prog) (k : Nat) (code : List PyStmt) (k' : Nat)
-    (ht : transpileL env k prog = .ok (code, k')) (n : Nat) (σ σ' : RSt) (π : PSt) (sg : Sig)
-    (h : Rel σ π) (hr : execL cfg n prog σ = .ok (sg, σ')) :
-    ∃ π', execPL cfg n code π = .ok (sigP sg, π') ∧ Post sg σ' π' :=
-  simL cfg env hE prog hf k code k' ht n σ π sg σ' h hr
+/-- **Simulation**: from related states (any frame depth, any closure tables), whenever the reference semantics of
+    `prog` is defined, the Python semantics of the transpiled code yields the corresponding signal and a related state —
+    every program of the fragment, every starting identifier, every fuel. -/
+theorem simulation (cfg : Cfg) (env : TEnv) (hE : cfg.elements = env.elements)
+    (prog : List Structure) (hf : Frag env.elements prog) (k : Nat) (code : List PyStmt) (k' : Nat)
+    (ht : transpileL env k prog = .ok (code, k')) (n : Nat) (A : Option Val) (σ σ' : RSt) (π : PSt) (sg : Sig)
+    (h : Rel env A σ π) (hr : execL cfg n prog σ = .ok (sg, σ')) :
+    ∃ π', execPL cfg n code π = .ok (sigP sg, π') ∧ Post env A sg σ' π' :=
+  simAt_all cfg env hE n prog k code k' hf ht A σ π sg σ' h hr
+
+/-- **The call protocol**: calling the function value number `id` in the reference semantics — with the arguments popped
+    from `argStack`, by reference (the call element, `arity = none`) or from `safe_apply` (`arity = some k`) — and calling
+    the Python function object with the same number return the same result, leave the same rest of the argument list,
+    and related states. -/
+theorem call_protocol (cfg : Cfg) (env : TEnv) (hE : cfg.elements = env.elements) (n : Nat) (A : Option Val) (σ σ' : RSt) (π : PSt)
+    (h : Rel env A σ π) (id : Nat) (argStack : List Val) (arity : Option Nat) (byref : Bool) (res : Val) (rest : List Val)
+    (hr : callLam cfg (n + 1) id argStack (arity.map (fun (a : Nat) => (a : Int))) σ = .ok (res, rest, σ')) :
+    ∃ π', callPy cfg (n + 1) id (lamPos id argStack arity) [] byref π = .ok (.list [res], some (.list rest.reverse), π') ∧
+      Rel env A σ' π' :=
+  sim_callLam cfg n (simAt_all cfg env hE n) h id argStack arity byref res rest σ' hr
 
 /-
 Full statement (all structures of the property):
@@ -47,15 +59,15 @@ theorem compile_correct (cfg env) (hE : cfg.elements = env.elements) (hM : cfg.m
     (prog : List Structure) (code) (ht : transpileAst env prog = .ok code) (fuel flags inputs obs)
     (hr : refProgram cfg fuel flags inputs prog = .ok obs) : pyProgram cfg fuel flags inputs code = .ok obs
 
-Proved below for the closure-free fragment; lambdas (plain, map, filter, sort), named functions, list literals
-and modifiers are not yet covered by a theorem (they are covered by the three correspondence streams).
+Proved below for the fragment without named functions, list literals and modifiers (those are covered by the three
+correspondence streams).
 -/
 
-/-- **C01, closure-free fragment**: a program of the fragment that the reference semantics runs to an observation
+/-- **C01, fragment with lambdas**: a program of the fragment that the reference semantics runs to an observation
     (final stack, printed text including the implicit output under the given flags) is run to the same
     observation by the Python semantics of its transpilation — all programs, inputs, flags, fuel. -/
-theorem compile_correct_partial_no_closures (cfg : Cfg) (env : TEnv) (hE : cfg.elements = env.elements)
-    (prog : List Structure) (hf : Frag2 env.elements prog) (code : List PyStmt)
+theorem compile_correct_partial_no_functions (cfg : Cfg) (env : TEnv) (hE : cfg.elements = env.elements)
+    (prog : List Structure) (hf : Frag env.elements prog) (code : List PyStmt)
     (ht : transpileAst env prog = .ok code) (fuel : Nat) (flags : String) (inputs : List Val)
     (obs : List Val × String) (hr : refProgram cfg fuel flags inputs prog = .ok obs) :
     pyProgram cfg fuel flags inputs code = .ok obs := by
@@ -71,13 +83,13 @@ theorem compile_correct_partial_no_closures (cfg : Cfg) (env : TEnv) (hE : cfg.e
     | ok r1 =>
       obtain ⟨sg, σ⟩ := r1
       simp only [hex, R_ok_bind] at hr
-      obtain ⟨π, he, hP⟩ := simL cfg env hE prog hf 0 c k' htl fuel _ _ sg σ (rel_init flags inputs) hex
+      obtain ⟨π, he, hP⟩ := simAt_all cfg env hE fuel prog 0 c k' hf htl Option.none _ _ sg σ (rel_init flags inputs) hex
       unfold pyProgram
       rw [execPL_orPass, he]
       cases sg with
       | normal =>
         simp only [sigP, R_ok_bind] at hr ⊢
-        have hR : Rel σ π := hP
+        have hR : Rel env Option.none σ π := hP
         cases hfin : finish flags σ with
         | error e => simp [hfin] at hr
         | ok σ' =>
@@ -88,14 +100,16 @@ theorem compile_correct_partial_no_closures (cfg : Cfg) (env : TEnv) (hE : cfg.e
       | cont => simp at hr
       | ret v => simp at hr
 
-/-- the fragment is not empty: `3(n2%[+|-X]:,){←a|←a‹→a}` — `n`, a dyad, an `if` with a break inside a `for`,
-    duplicate and print, then a `while` on a variable -/
-example : Frag2 Gen.elements
+/-- the fragment is not empty: `3(n2%[+|-X]:,){←a|←a‹→a}λ2|+[X];†ƛnd;` — `n`, a dyad, an `if` with a break inside a
+    `for`, duplicate and print, a `while` on a variable, a lambda with an early return called at once, a map lambda -/
+example : Frag Gen.elements
     [ .generic ⟨.number, [51]⟩,
       .forS [] [ .generic ⟨.general, [110]⟩, .generic ⟨.number, [50]⟩, .generic ⟨.general, [37]⟩,
                  .ifS [[.generic ⟨.general, [43]⟩], [.generic ⟨.general, [45]⟩, .brk .forS]],
                  .generic ⟨.general, [58]⟩, .generic ⟨.general, [44]⟩ ],
-      .whileS (some [.generic ⟨.vget, [97]⟩]) [.generic ⟨.vget, [97]⟩, .generic ⟨.general, [8249]⟩, .generic ⟨.vset, [97]⟩] ] := by
+      .whileS (some [.generic ⟨.vget, [97]⟩]) [.generic ⟨.vget, [97]⟩, .generic ⟨.general, [8249]⟩, .generic ⟨.vset, [97]⟩],
+      .lam (some 2) [.generic ⟨.general, [43]⟩, .ifS [[.brk .lam]]], .generic ⟨.general, [8224]⟩,
+      .lamOp .lmap [.generic ⟨.general, [110]⟩, .generic ⟨.general, [100]⟩] ] := by
   decide +kernel
 
 /-- how much of the current element table the parametric element lemma covers -/
@@ -107,5 +121,12 @@ theorem core_templates_as_expected :
     coreKeys.all (fun c => match lookupElem Gen.elements [c] with
       | some e => coreEntryOK [c] e
       | Option.none => false) = true := by decide +kernel
+
+/-- the call element and the three elements behind map / filter / sort lambdas are, in the regenerated table, what the
+    closure lemmas were proved for -/
+theorem closure_elements_as_expected :
+    (match lookupElem Gen.elements [8224] with | some e => callEntryOK [8224] e | Option.none => false) = true ∧
+    ([[77], [70], [7777]].all (fun k => match lookupElem Gen.elements k with | some e => hoElemOK e | Option.none => false)) = true := by
+  decide +kernel
 
 end Vy.Sem
